@@ -12,3 +12,5 @@ import XmppVerif.Drv.C15
 import XmppVerif.Tie.C15
 import XmppVerif.Tie.C19
 import XmppVerif.Tie.C20
+import XmppVerif.Props.C06
+import XmppVerif.Drv.C06
